@@ -6,7 +6,7 @@ import json, os, subprocess, sys, glob
 root = sys.argv[1]; ids = sys.argv[2:]
 V = os.path.dirname(os.path.dirname(os.path.abspath(__file__)))
 props = {json.loads(l)["id"]: json.loads(l) for l in open(os.path.join(V, "properties.jsonl")) if l.strip()}
-tmpl = open(os.path.join(V, "tools/prompts/seed-round5.txt")).read()
+tmpl = open(os.path.join(V, "tools/prompts/seed-round6.txt")).read()
 for pid in ids:
     d = os.path.join(root, pid); os.makedirs(os.path.join(d, "out"), exist_ok=True)
     json.dump(props[pid], open(os.path.join(d, "property.json"), "w"), indent=1)
